@@ -1423,6 +1423,9 @@ class ContinuousSpace:
             the given agent (i.e., self when calling it from an agent).
 
         """
+        if not self._agent_to_index:
+            return []
+
         if self._agent_points is None:
             self._build_agent_cache()
 
